@@ -49,7 +49,7 @@ CHECKS = {
         ref='DESIGN.md §5 C06'),
     "C07": dict(
         technique='Coq proof (non-interference of members in the transcription model; disjoint member blocks; default control sharing) + executable Gallina model of the scenario tree compared with ControlTreeMixin / PlanningMixin, metamorphic isolation runs on transcribe()',
-        text="C07_reads_only_own_slots, C07_member_blocks_disjoint, C07_data_isolated, C07_default_sharing are proved for all problems; ControlTree.v mirrors branch()/discretize_control and is compared (tree and sharing classes) with the real mixins on generated forecasts with ties, duplicates and coinciding prefixes, and every case is judged by 'share iff same branch', 'children partition the parent', 'at most k children', 'coinciding forecasts stay together'; isolation is additionally tested metamorphically on the implementation (perturb the last member, all other members' rows and boxes unchanged).",
+        text="C07_reads_only_own_slots, C07_member_blocks_disjoint, C07_data_isolated, C07_default_sharing are proved for all problems, C07_children_partition / C07_children_cover (children of a scenario-tree branch partition its members) for all distance functions, branching factors and member lists; ControlTree.v mirrors branch()/discretize_control and is compared (tree and sharing classes) with the real mixins on generated forecasts with ties, duplicates and coinciding prefixes, and every case is judged by 'share iff same branch', 'children partition the parent', 'at most k children', 'coinciding forecasts stay together'; isolation is additionally tested metamorphically on the implementation (perturb the last member, all other members' rows and boxes unchanged).",
         note='Trusted: Coq kernel + vm_compute; harness generators / AST printers (the same AST is built in CasADi and printed as Gallina); transcribe() observed through nlp g/f/lbg/ubg/lbx/ubx at rational probe vectors (1e-8 relative; binary64 rounding not modelled); integrate_states, lookup tables, vector-valued variables and delayed feedback are outside this model. No axioms. The partition / monotonicity theorems for the tree model itself are not proved yet (checked per case); np.int16 index arrays are not modelled.',
         ref='DESIGN.md §5 C07'),
     "C08": dict(
